@@ -11,7 +11,9 @@ func genDirectiveLine(r *rand.Rand) string {
 	ws := func() string {
 		return pick(r, []string{" ", " ", " ", "  ", "\t", "", "", " \t ", "\f", "\r", "\v", " ", "   "})
 	}
-	ws1 := func() string { return pick(r, []string{" ", " ", "  ", "\t", " \t", "\f", ""}) }
+	ws1 := func() string {
+		return pick(r, []string{" ", " ", "  ", "\t", " \t", "\f", "", "   ", "    ", "     ", " \t  \t "})
+	}
 	token := func() string {
 		return pick(r, []string{"foo", "bar", "a--b", "--", "-", "x.ra", "unix-shell", "x_y-z", "é", "a--", "--a", "a---b", "{{x}}", "\"\"", "@", "~", "b", "i", "s", "is", "x", "unix", "windows",
 			"[a-z]+", "(?:a|b)", "\\s", "name1", "v"})
